@@ -180,6 +180,11 @@ func (code128Encoder) encodeWithHints(contentsStr string, hints map[gozxing.Enco
 						return nil, gozxing.NewWriterException(
 							"IllegalArgumentException: Bad number of characters for digit only encoding.")
 					}
+					if c1 := contents[position+1]; c1 < '0' || c1 > '9' {
+						// e.g. an FNC1 escape at an odd digit offset under forced code set C
+						return nil, gozxing.NewWriterException(
+							"IllegalArgumentException: Bad number of characters for digit only encoding.")
+					}
 					patternIndex = (int(contents[position])-'0')*10 + (int(contents[position+1]) - '0')
 					position++ // Also incremented below
 					break
